@@ -290,6 +290,9 @@ def payload_id(p):
 
 # --------------------------------------------------------------------------- endpoints
 
+ATTACKER_ADDR = ("10.66.6.6", 6666)
+
+
 class MockSock(object):
     def __init__(self, client):
         self.client = client
@@ -298,6 +301,11 @@ class MockSock(object):
 
     def sendto(self, datagram, addr):
         c = self.client
+        if tuple(addr[:2]) != SERVER_ADDR:
+            # the client addressed a datagram to somebody else than the server it connected to
+            c.world.counters.inc("client_datagrams_to_foreign_address")
+            c.world.misdirected.append((c.world.clock.now, c.addr, tuple(addr[:2]), len(datagram), c.last_origin))
+            return
         c.world.on_wire("c2s", c.addr, bytes(datagram), c)
         c.world.net.send("c2s", c.addr, bytes(datagram))
 
@@ -306,7 +314,13 @@ class MockSock(object):
         self.client.last_origin = origin
         self.client.last_datagram = datagram
         self.client.world.counters.inc("client_datagrams_read")
-        return datagram[:n], SERVER_ADDR
+        # what an attacker injects arrives from the attacker's own address half of the time (the other half it spoofs the
+        # server's); honest traffic, network duplicates and replays by an on-path attacker carry the server's address
+        src = SERVER_ADDR
+        if origin not in (None, "honest", "dup") and not str(origin).startswith("replay") and (len(datagram) + self.client.world.ticks) % 2:
+            src = ATTACKER_ADDR
+            self.client.world.counters.inc("client_datagrams_from_foreign_address")
+        return datagram[:n], src
 
     def close(self):
         self.client.sock_open = False
@@ -537,6 +551,7 @@ class World(object):
         self.tick_hooks = []        # fn(world) after every driver step
         self.clients = []
         self.clients_by_addr = {}
+        self.misdirected = []        # (t, client addr, destination, bytes, origin of the last datagram read) - datagrams a client sent elsewhere
         self.root_key = root_key or EllipticCurvePrivateKey.new()
         self.root_pub = self.root_key.getPublicKey()
         self.handler = handler or MonHandler(self)
